@@ -464,7 +464,7 @@ func init() {
 	// ahead of what the leader still probes after reordered or late replies.
 	for d := 0; d <= 6; d++ {
 		reg(&explore.Suite{Name: fmt.Sprintf("live-eager3-d%d", d), Cfg: sim.Config{Voters: 3, SnapAt: 2, SnapNodes: []int{2}}, Seed: seedLeader3, Monitors: snapMonitors, Leaf: monitor.Continuation(150),
-			Budget: sim.Budget{Timeouts: 1, Elapses: 1, Beats: 2, Writes: 2, Cuts: 1, Reorders: -1, Splits: 2, Deviations: d}})
+			Budget: sim.Budget{Timeouts: 1, Elapses: 1, Beats: 2, Writes: 2, Cuts: 1, Reorders: -1, Splits: 2, DropReplies: 2, Deviations: d}})
 	}
 	// one voter growing a cluster (C15): non-voters are added, crash, the voter restarts
 	for d := 0; d <= 6; d++ {
